@@ -6,7 +6,7 @@ finding live in corpus/C09/<target>/regress/ and are replayed on every run."""
 
 def T(name, src, quick_secs, max_len=8192, timeout=10, **kw):
     d = dict(name=name, src=['props/C09/' + src], engine='libfuzzer', corpus=['corpus/C09/' + name], max_len=max_len,
-             timeout=timeout, hang_is_violation=True, fuzz_args=['-close_fd_mask=1', '-len_control=%d' % (0 if max_len > 8192 else 50)],
+             timeout=timeout, replay_timeout=timeout + 15, hang_is_violation=True, fuzz_args=['-close_fd_mask=1', '-len_control=%d' % (0 if max_len > 8192 else 50)],
              quick=dict(secs=quick_secs, shards=16), thorough=dict(secs=180, shards=16))
     # note: the per-case alarm armed by vf.h (VF_TARGET timeout) must be >= libFuzzer's -timeout, see the targets
     d.update(kw)
